@@ -3,9 +3,11 @@
 use crate::driver::{minimise, run_generated, run_ops, ReplayDoc};
 use crate::gen::Swarm;
 use crate::scen_bt::Bt;
+use crate::scen_cache::Cache;
 use crate::scen_ddl::Ddl;
 use crate::scen_hist::Hist;
 use crate::scen_mask::Mask;
+use crate::scen_sec::Sec;
 use crate::scen_trig::Trg;
 use crate::scen_twin::Twin;
 use simcore::runner::{RunReport, Violation};
@@ -89,6 +91,30 @@ pub fn spec(id: &str) -> Option<PropSpec> {
             rule: "each run = one seeded history of CREATE/DROP TABLE, CREATE/DROP INDEX, ALTER TABLE (ADD/DROP/CHANGE COLUMN, RENAME TO, ADD/DROP CONSTRAINT), INSERT/UPDATE/DELETE and index-driven probes over a pool of 3 table, 7 column and 4 index names written in random identifier case; an evaluation is one comparison after a step (catalog vs storage vs accepted-statement model listing, declared vs stored columns, row arity, queryability, index registries vs existing objects, index contents vs the same CREATE INDEX on the current rows, constraint hash indexes vs rebuild, retained-column data across ALTER, probe with vs without index scans); non-trivial = >=1 accepted statement and >=1 comparison; distinct = distinct hash of (operation kinds, outcome classes, reach probes)",
             assumptions: &["the model of which objects must exist is built only from statements the engine accepted; a refused statement is not second-guessed, except CREATE TABLE of a name no table has", "an index that the engine drops on its own together with its column or table is not demanded back", "column rename is exercised through CHANGE COLUMN (RENAME COLUMN is not in the grammar)", "index scans are switched off for the comparison probe through guarded hook H5 (INDEX_SCAN)"],
             stubs: &[],
+            quarantine_note: "",
+        },
+        "C26" => PropSpec {
+            id: "C26",
+            scenario: "sec",
+            label: 26,
+            runs_quick: 20000,
+            runs_thorough: 300000,
+            level: "exploration",
+            rule: "each run = one database with security enabled (two tables with optional indexes, a view, two roles) and a seeded history of GRANT/REVOKE (as ADMIN), SET ROLE and statements under the current non-admin role in 26 shapes (scans, index scans, aggregates, joins, IN/NOT IN/EXISTS/scalar subqueries, derived tables, CTEs, UNION, a view, INSERT VALUES, INSERT..SELECT on the bulk-transfer and general paths, UPDATE/DELETE with subqueries); an evaluation is one statement whose role lacks a needed privilege: it must fail and leave both tables unchanged; non-trivial = >=1 accepted GRANT/REVOKE and >=1 evaluation; distinct = distinct hash of (operation kinds, outcome classes, reach probes)",
+            assumptions: &["one-sided, as the property is stated: a statement refused although the model holds the privileges is counted (granted_but_refused) but not reported", "needed privileges: SELECT on every table a statement reads (also through the view and in subqueries of DML), INSERT/UPDATE/DELETE on the target; a WHERE clause on the target of UPDATE/DELETE does not by itself require SELECT", "statements are evaluated only while both tables are non-empty (with an empty input a statement may finish without reading the other table)", "grants to PUBLIC, role membership and WITH GRANT OPTION are not generated"],
+            stubs: &[],
+            quarantine_note: "",
+        },
+        "C25" => PropSpec {
+            id: "C25",
+            scenario: "cache",
+            label: 25,
+            runs_quick: 20000,
+            runs_thorough: 300000,
+            level: "exploration",
+            rule: "each run = one database (t0(k, s), t1(k, v), a view over t0), one QueryResultCache of seeded capacity (2 / 8 / 1000) and a seeded history of INSERT/UPDATE/DELETE and cached reads; query texts vary string literals in case and inner white space ('a' / 'A' / 'a b' / 'a  b'), keyword and identifier case and layout, and reach the tables through joins, IN/EXISTS/scalar subqueries, derived tables, CTEs, UNION, HAVING subqueries and the view; an evaluation is one cache hit compared with direct execution of the same text on the current database; non-trivial = >=1 successful write and >=1 evaluated hit; distinct = distinct hash of (operation kinds, outcome classes, hit/miss sequence)",
+            assumptions: &["the protocol around the cache (lookup by QuerySignature::from_sql, store with extract_tables_from_select, invalidate_table(target) on INSERT/UPDATE/DELETE) re-states the repository's sqllogictest adapter, the only caller in the tree (a test-support file); cache, signature and extractor are the real library code", "no foreign keys or triggers: writes change only their target table", "results compared as multisets"],
+            stubs: &["cache protocol glue of tests/sqllogictest/db_adapter.rs (re-stated in the harness)"],
             quarantine_note: "",
         },
         "C17" => PropSpec {
@@ -186,6 +212,9 @@ fn tweak_for(prop: &str) -> impl Fn(&mut Swarm) {
         "C33" => {
             sw.steps = sw.steps.max(24);
         }
+        "C26" | "C25" => {
+            sw.steps = sw.steps.max(30);
+        }
         "C17" => {
             sw.steps = *[30usize, 80, 150, 400].get((sw.domain % 4) as usize).unwrap_or(&150);
         }
@@ -252,6 +281,8 @@ pub fn run(prop: &str, run_seed: u64, guards: &[String]) -> RunReport {
         "C34" => run_generated::<Trg>(prop, run_seed, guards, tweak_for(prop)),
         "C17" => run_generated::<Bt>(prop, run_seed, guards, tweak_for(prop)),
         "C33" => run_generated::<Ddl>(prop, run_seed, guards, tweak_for(prop)),
+        "C25" => run_generated::<Cache>(prop, run_seed, guards, tweak_for(prop)),
+        "C26" => run_generated::<Sec>(prop, run_seed, guards, tweak_for(prop)),
         "C03" | "C04" | "C05" | "C32" => run_generated::<Mask>(prop, run_seed, guards, tweak_for(prop)),
         "C02" | "C16" | "C18" | "C19" => run_generated::<Twin>(prop, run_seed, guards, tweak_for(prop)),
         _ => panic!("unknown property {}", prop),
@@ -265,6 +296,8 @@ pub fn replay(doc: &ReplayDoc) -> (Option<Violation>, u64) {
         "mask" => run_ops::<Mask>(&doc.property, &doc.swarm, &doc.ops),
         "bt" => run_ops::<Bt>(&doc.property, &doc.swarm, &doc.ops),
         "ddl" => run_ops::<Ddl>(&doc.property, &doc.swarm, &doc.ops),
+        "cache" => run_ops::<Cache>(&doc.property, &doc.swarm, &doc.ops),
+        "sec" => run_ops::<Sec>(&doc.property, &doc.swarm, &doc.ops),
         "trig" => run_ops::<Trg>(&doc.property, &doc.swarm, &doc.ops),
         other => panic!("unknown scenario {}", other),
     }
@@ -277,6 +310,8 @@ pub fn minimise_doc(doc: &ReplayDoc) -> ReplayDoc {
         "mask" => minimise::<Mask>(doc),
         "bt" => minimise::<Bt>(doc),
         "ddl" => minimise::<Ddl>(doc),
+        "cache" => minimise::<Cache>(doc),
+        "sec" => minimise::<Sec>(doc),
         "trig" => minimise::<Trg>(doc),
         _ => doc.clone(),
     }
